@@ -59,8 +59,9 @@ let () = main_loop
            let (s', r) = step !cf !st (parse_op l) in st := s'; show_out r)
   ~monitor:(fun o r ->
      (if !bad = None && not !stop && not (is_ctr o) then
-        match mstep !mo (parse_op o) (parse_out r) with
-        | (Ok, m') -> mo := m'
-        | (Bad t, _) -> if tag_in !prop t then bad := Some (!pos, tag_name t) else stop := true);
+        match judge !prop !mo (parse_op o) (parse_out r) with
+        | JOk m' -> mo := m'
+        | JBad t -> bad := Some (!pos, tag_name t)
+        | JStop -> stop := true);
      incr pos; None)
   ~finish:(fun () -> match !bad with None -> "OK" | Some (p, t) -> Printf.sprintf "BAD %d %s" p t)
